@@ -304,6 +304,21 @@ func genC07(c *Ctx) {
 	errTo2 := func(s *Sys) {
 		s.Inject(2, []byte("?OTR Error: please"), fmt.Sprintf("WError %s", coqBytes([]byte("please"))))
 	}
+	// the same while a session is up: the side that is told about an error (and has ERROR_START_AKE) asks for a new
+	// exchange, whatever state its last exchange was left in
+	errTo2enc := func(s *Sys) {
+		before := len(s.ps[2].outs)
+		errTo2(s)
+		asked := false
+		for _, o := range s.ps[2].outs[before:] {
+			if parseWire(o).kind == 1 {
+				asked = true
+			}
+		}
+		if !asked {
+			c.Violate("ake-incomplete", "error-start-while-encrypted", "an error message from the peer did not make the side with ERROR_START_AKE ask for a new key exchange", s.trace)
+		}
+	}
 	established := func(s *Sys) bool {
 		if !s.Handshake(1, 2) {
 			return false
@@ -328,6 +343,7 @@ func genC07(c *Ctx) {
 			config{"whitespace", vp[0] | polSendWS, vp[1] | polWSStart, nil, []action{send1("hello")}},
 			config{"whitespace-twice", vp[0] | polSendWS, vp[1] | polWSStart, nil, []action{send1("hello"), send1("hello again")}},
 			config{"error-start", vp[0], vp[1] | polErrStart, nil, []action{errTo2}},
+			config{"error-start-encrypted", vp[0], vp[1] | polErrStart, established, []action{errTo2enc}},
 			config{"require-send", vp[0] | polRequire, vp[1], nil, []action{send1("needs encryption")}},
 			config{"require-send-twice", vp[0] | polRequire, vp[1], nil, []action{send1("needs encryption"), send1("this one too")}},
 			config{"after-end-at-once", vp[0], vp[1], endedNow, []action{q12}},
@@ -339,9 +355,9 @@ func genC07(c *Ctx) {
 	for ci, cf := range configs {
 		// quick: every configuration with the first policy pair; with the other pairs every single-start configuration
 		// (one schedule each) and a third of the rest
-		single := cf.name == "query-one" || cf.name == "whitespace" || cf.name == "error-start" || cf.name == "require-send" || cf.name == "refresh" ||
+		single := cf.name == "query-one" || cf.name == "whitespace" || cf.name == "error-start" || cf.name == "error-start-encrypted" || cf.name == "require-send" || cf.name == "refresh" ||
 			strings.HasPrefix(cf.name, "after-end")
-		if !c.Thorough() && ci >= 11 && !single && ci%3 != 0 { // quick: all nine with the first policy pair, a third of the rest
+		if !c.Thorough() && ci >= 12 && !single && ci%3 != 0 { // quick: all twelve with the first policy pair, a third of the rest
 			continue
 		}
 		seed := c.R.U64()
